@@ -195,6 +195,7 @@ def run(ctx):
     # ------------------------------------------------------------------ R3
     stencils = [(AG, "w_derivative_numerical"), (AG, "overlap_der_finiteDiff"), (AG, "core_core_der_fd")]
     n_st = 0
+    steps_seen = set()
     for rel, q in stencils:
         m = repo.mod(rel)
         f = m.func(q)
@@ -207,14 +208,18 @@ def run(ctx):
         disp = []
         order = []
         for i, st in enumerate(L.body):
-            if isinstance(st, ast.AugAssign) and isinstance(st.target, ast.Subscript) and norm(st.target.value) == "Xij" and cv in names_in(st.target.slice):
+            if isinstance(st, ast.AugAssign) and isinstance(st.target, ast.Subscript) and isinstance(st.target.value, ast.Name) and cv in names_in(st.target.slice) \
+                    and isinstance(st.op, (ast.Add, ast.Sub)):
                 a = affine(st.value)
                 a = a.scale(-1) if isinstance(st.op, ast.Sub) else a
                 disp.append(a)
                 order.append(("D", i))
             elif isinstance(st, ast.Assign):
                 order.append(("A", i, st))
-        d = Affine({"delta": 1}, 0)
+        # the step is whatever single symbol the displacements are multiples of; it must be a module-level constant
+        syms = sorted({k for a in disp for k in a.coef}) if disp else []
+        STEP = syms[0] if len(syms) == 1 else "delta"
+        d = Affine({STEP: 1}, 0)
         ok = len(disp) == 3 and disp[0] == d.scale(-1) and disp[1] == d.scale(2) and disp[2] == d.scale(-1)
         ctx.check(ok, "R3", m, L, q, L, f"{q}: Xij[:, {cv}] is displaced by -delta, +2*delta, -delta (central stencil, input restored)",
                   f"{q}: displacements of Xij are {disp}: not a central stencil that restores its input (later coordinates/derivatives are evaluated at a shifted geometry)")
@@ -245,12 +250,15 @@ def run(ctx):
         ctx.check(qok, "R3", m, L, q, quots[0] if quots else L, f"{q}: derivative = (first half - second half) / (2*delta) ({len(quots)} quotients)",
                   f"{q}: finite-difference quotient is not (first half - second half)/(2*delta): `{short(quots[0], 70) if quots else ''}`")
         # delta is the module constant
-        reb = [st for st in ast.walk(f) if isinstance(st, ast.Assign) and norm(st.targets[0]) == "delta"]
-        ctx.check(not reb and "delta" in m.globals, "R3", m, reb[0] if reb else f, q, reb[0] if reb else "delta", f"{q}: uses the module constant delta", f"{q}: rebinds delta locally")
+        reb = [st for st in ast.walk(f) if isinstance(st, ast.Assign) and norm(st.targets[0]) == STEP]
+        ctx.check(not reb and STEP in m.globals, "R3", m, reb[0] if reb else f, q, reb[0] if reb else STEP, f"{q}: uses the module constant {STEP}", f"{q}: rebinds {STEP} locally")
+        steps_seen.add(STEP)
     if n_st < 3:
         raise AnalysisError("stencils not found")
-    dv = ag.globals.get("delta")
-    ctx.check(isinstance(dv, ast.Constant) and 1e-7 <= dv.value <= 1e-3, "R3", ag, ag.tree, "<module>", "delta", f"delta = {getattr(dv, 'value', None)} within [1e-7, 1e-3]", "delta out of range")
+    for STEP in sorted(steps_seen):
+        dv = ag.globals.get(STEP)
+        ctx.check(isinstance(dv, ast.Constant) and isinstance(dv.value, float) and 1e-7 <= dv.value <= 1e-3, "R3", ag, dv if dv is not None else ag.tree, "<module>", STEP,
+                  f"{STEP} = {getattr(dv, 'value', None)} within [1e-7, 1e-3]", f"finite-difference step {STEP} = {getattr(dv, 'value', None)} out of range")
 
     # ------------------------------------------------------------------ R4
     from ..forcerules import check_force_assembly
